@@ -398,24 +398,35 @@ def scan_lexicons(source: AnyPath) -> list[ScanInfo]:
     source = Path(source).expanduser()
     infos: list[ScanInfo] = []
 
-    lex_re = re.compile(b'<(Lexicon|LexiconExtension|Extends)\\b([^>]*)>', flags=re.M)
-    attr_re = re.compile(b'''\\b(id|version|label)=["']([^"']+)["']''', flags=re.M)
+    # attribute values may contain '>' and the other quote character,
+    # so quoted strings are matched as units
+    lex_re = re.compile(
+        b'<(Lexicon|LexiconExtension|Extends)\\b'
+        b'((?:[^>"\']|"[^"]*"|\'[^\']*\')*)>',
+        flags=re.M
+    )
+    attr_re = re.compile(
+        b'(?<![\\w:.-])(id|version|label)\\s*=\\s*(?:"([^"]*)"|\'([^\']*)\')',
+        flags=re.M
+    )
 
     with open(source, 'rb') as fh:
         for m in lex_re.finditer(fh.read()):
             lextype, remainder = m.groups()
             attrs = {
-                _m.group(1).decode("utf-8"): _m.group(2).decode("utf-8")
+                _m.group(1).decode("utf-8"): (
+                    _m.group(2) if _m.group(2) is not None else _m.group(3)
+                ).decode("utf-8")
                 for _m in attr_re.finditer(remainder)
             }
+            if 'id' not in attrs or 'version' not in attrs:
+                raise LMFError(f'<{lextype.decode("utf-8")}> missing id or version')
             info: ScanInfo = {
                 "id": attrs["id"],
                 "version": attrs["version"],
                 "label": attrs.get("label"),
                 "extends": None,
             }
-            if 'id' not in info or 'version' not in info:
-                raise LMFError(f'<{lextype.decode("utf-8")}> missing id or version')
             if lextype != b'Extends':
                 infos.append(info)
             elif len(infos) > 0:
